@@ -479,6 +479,9 @@ class ExecGen:
                 ref = f'./{fname}'
             elif style < 0.82:
                 ref = f'/abs/d{ix % 2}/{fname}'
+            elif style < 0.86:
+                # absolute URLs whose scheme is not followed by '//' are absolute URLs all the same
+                ref = r.choice([f'file:/srv/d{ix % 2}/{fname}', f'mem:{fname}', f'urn:lib:{fname}'])
             elif style < 0.92:
                 ref = f'http://other/x{ix % 2}/{fname}'
             else:
